@@ -73,10 +73,11 @@ CLAIMED = {
          'the forward values, hence any number of sweeps leave the forward values intact; counterexamples for stale stores and missing re-apply (the old behaviour). Random call histories (forward evaluations, sweeps, all drivers, '
          'second graphs) are checked call by call against fresh graphs, with node-value snapshots around cg.pullback (partial: read-only-ness of pullback kernels has no theorem).')),
  'C13': dict(
-   technique='Lean 4 theorems (index-map algebra of a mini-NumPy: the (:,:)++idx prefix law for every basic index expression, sum axis arithmetic) + mini-NumPy-vs-NumPy and slice-wise correspondence',
+   technique='Lean 4 theorems (index-map algebra of a mini-NumPy: the (:,:)++idx prefix law, injectivity of every basic index map, item assignment, sum axis arithmetic) + mini-NumPy-vs-NumPy and slice-wise correspondence',
    text=('Theorems for all D, P, shapes and every basic index expression (ints, negative ints, slices with steps, Ellipsis, newaxis): UTPM indexing is the same index map applied to every coefficient slice, its elements are '
-         'elements (cells) of the parent, and UTPM.sum(axis) addresses the coefficient axis NumPy addresses on a slice. The indexing model itself is validated against real NumPy (random + exhaustive small expressions). '
-         'reshape/transpose/tile/diag/tri*/trace/conj/real/imag/fft/zeros/ones/symvec/vecsym and item assignment (UTPM, ndarray, scalar right-hand sides, write-through, shares_memory) are checked slice-wise against NumPy (partial: no theorem).')),
+         'elements (cells) of the parent; every basic index map is injective; x[idx] = v changes exactly the selected cells of every coefficient slice and x[idx] = constant sets the zeroth and clears the higher coefficients; '
+         'UTPM.sum(axis) addresses the coefficient axis NumPy addresses on a slice. The indexing and assignment models are validated against real NumPy / the real __setitem__ (random + exhaustive small expressions). '
+         'reshape/transpose/tile/diag/tri*/trace/conj/real/imag/fft/zeros/ones/symvec/vecsym, write-through and shares_memory are checked slice-wise against NumPy (partial: no theorem).')),
  'C09': dict(
    technique='Lean 4 theorems (extraction algebra and seed tables of the Hessian / Hessian-vector drivers for every N) + exact analytic oracle on polynomial programs',
    text=('Theorems for every N and every symmetric H: 2 c2(e_n) = H_nn, c2(e_n+e_m) - c2(e_n) - c2(e_m) = H_nm, -c2(e_n) + c2(v+e_n) - c2(v) = (Hv)_n (the formulas of extract_hessian / extract_hess_vec); the triangular '
